@@ -242,10 +242,7 @@ func c06Instances(tier string) []Instance {
 	var out []Instance
 	kinds := []string{"QuorumCallPerNodeArg", "QuorumCallCombo", "QuorumCallAsyncPerNodeArg", "QuorumCallAsyncCombo", "CorrectablePerNodeArg", "CorrectableCombo", "CorrectableStreamPerNodeArg", "CorrectableStreamCombo", "MulticastPerNodeArg",
 		"QuorumCall", "QuorumCallCustomReturnType", "QuorumCallAsync", "Correctable", "CorrectableStream", "Multicast"}
-	bound := 1
-	if thorough(tier) {
-		bound = 2
-	}
+	bound := 2
 	for _, kind := range kinds {
 		for n := 1; n <= 3; n++ {
 			subsets := 1
@@ -265,7 +262,7 @@ func c06Instances(tier string) []Instance {
 					}
 					b := bound
 					if n == 3 && !thorough(tier) {
-						b = 0
+						b = 1
 					}
 					p := pnParams{kind: kind, n: n, skip: skip, extra: extra}
 					out = append(out, Instance{Name: p.name(), Bound: b, Root: pnScenario(p)})
